@@ -80,6 +80,9 @@ func runC04(c *fw.Case) {
 	if c.Chance(1, 8, "fewchunks") {
 		n = c.Draw(3, "chunks.few")
 	}
+	if c.Chance(1, 12, "manychunks") {
+		n = 250 + c.Draw(800, "chunks.many") // tables larger than any internal buffer
+	}
 	r := c.Rand("index.seed")
 	flags := uint64(desync.CaFormatExcludeNoDump)
 	if !sha256mode {
@@ -231,6 +234,8 @@ func runC04(c *fw.Case) {
 	step := 1
 	if storeKind != 0 && len(file) > 600 {
 		step = 1 + len(file)/600 // stores cost a file write per probe: sample prefixes, always including the boundaries
+	} else if len(file) > 9000 {
+		step = 1 + len(file)/700
 	}
 	for l := 0; l < len(file); l += step {
 		c.Fault("truncation")
